@@ -304,6 +304,16 @@ func short(s string) string {
 	}, s)
 }
 
+// takeStats adds the producer's counters (created / closed stream producers, batches per signal) to acc and resets them.
+func takeStats(p *arrow_record.Producer, acc *[5]int) {
+	s := p.GetAndResetStats()
+	acc[0] += int(s.StreamProducersCreated)
+	acc[1] += int(s.StreamProducersClosed)
+	acc[2] += int(s.TracesBatchesProduced)
+	acc[3] += int(s.LogsBatchesProduced)
+	acc[4] += int(s.MetricsBatchesProduced)
+}
+
 func encode(p *arrow_record.Producer, in any) (bar *colarspb.BatchArrowRecords, oc, msg string) {
 	defer func() {
 		if x := recover(); x != nil {
@@ -466,7 +476,7 @@ func (e *Emitter) EmitStream(tr int, ev string, f map[string]any) {
 	}
 	e.SSeq++
 	rec := map[string]any{"tr": tr, "seq": e.SSeq, "ev": ev, "k": 0, "sig": "", "oc": "", "n": 0, "rows": 0,
-		"pl": []any{}, "ps": []any{}, "fp": []any{}, "cs": []any{}, "next": 0, "x": ""}
+		"pl": []any{}, "ps": []any{}, "fp": []any{}, "cs": []any{}, "st": []any{}, "next": 0, "x": ""}
 	for k, v := range f {
 		rec[k] = v
 	}
@@ -576,6 +586,8 @@ func RunStreamCapture(em *Emitter, tr int, st *Stream, capt *Capture) {
 	gapped := map[string]bool{}
 	delivered := map[string]bool{} // schema ids the consumer has been handed so far
 	retired := ""
+	statsOff := false
+	var pend [5]int // producer counters read but not yet reported (created, closed, traces, logs, metrics batches)
 	type ladder struct {
 		limit   uint64
 		c       *arrow_record.Consumer
@@ -644,7 +656,7 @@ func RunStreamCapture(em *Emitter, tr int, st *Stream, capt *Capture) {
 		if bs.Stats {
 			func() {
 				defer func() { _ = recover() }()
-				_ = p.GetAndResetStats()
+				takeStats(p, &pend)
 			}()
 		}
 		before := marshal(in)
@@ -695,9 +707,19 @@ func RunStreamCapture(em *Emitter, tr int, st *Stream, capt *Capture) {
 				sev["pl"] = spl
 				sev["n"] = int(bar.BatchId)
 			}
+			if oc == "panic" {
+				statsOff = true // what a crashed call counted is not specified
+			}
 			if oc != "panic" {
 				sev["ps"] = producerProjection(p)
 				sev["next"] = producerNext(p)
+				// the producer's own counters since the previous Encode event (every second stream: reading them
+				// resets them, and histories in which nobody reads them must stay covered too)
+				if tr%2 == 1 && !statsOff {
+					takeStats(p, &pend)
+					sev["st"] = []any{pend[0], pend[1], pend[2], pend[3], pend[4]}
+					pend = [5]int{}
+				}
 			}
 			em.EmitStream(tr, "Encode", sev)
 		}
